@@ -236,7 +236,11 @@ def _plain(line):
 
 
 def _is_include(line):
-	return re.match(r'#include ["<][^">]*[">]', line) is not None
+	match = re.match(r'#include (["<][^">]*[">])', line)
+	if match is None:
+		return False
+	import exclusions  # pylint: disable=import-error,import-outside-toplevel
+	return not any(pattern.match(match.group(1)) for pattern in exclusions.SPECIAL_INCLUDES)  # those are not ordered by the linter
 
 
 class Family:
@@ -300,11 +304,16 @@ class TabInside(Family):
 	name = 'whitespace:tab-inside'
 
 	def candidates(self, lines, relpath):
-		return [index for index, line in enumerate(lines[:-1]) if line.strip() and '\\' != line[-1]]
+		return [index for index, line in enumerate(lines[:-1]) if '\\' != line[-1:] and any(
+			not char.isspace() and char not in '/*' and line[index_ + 1:index_ + 2] not in ('/', '*') for index_, char in enumerate(line))]
 
 	def apply(self, lines, site, rng):
 		line = lines[site]
-		positions = [index + 1 for index, char in enumerate(line) if not char.isspace()]
+		# after a non-blank character, but never inside a comment marker (an unterminated /* sends the lexer's comment regex into
+		# exponential backtracking: the lint run would not finish)
+		positions = [
+			index + 1 for index, char in enumerate(line)
+			if not char.isspace() and char not in '/*' and line[index + 1:index + 2] not in ('/', '*')]
 		position = rng.choice(positions)
 		return _replace(lines, site, line[:position] + '\t' + line[position:]), {
 			'group': 'whitespaceLines', 'lineno': site + 1, 'kind': 'Tab present inside the text'}
@@ -394,8 +403,7 @@ class IncludeSwap(Family):
 	def candidates(self, lines, relpath):
 		return [
 			index for index in range(len(lines) - 2)
-			if _is_include(lines[index]) and _is_include(lines[index + 1]) and lines[index] != lines[index + 1]
-			and not any(word in lines[index] + lines[index + 1] for word in ('MacroBasedEnum.h', 'ReentrancyCheckReaderNotificationPolicy'))]
+			if _is_include(lines[index]) and _is_include(lines[index + 1]) and lines[index] != lines[index + 1]]
 
 	def apply(self, lines, site, rng):
 		new_lines = list(lines)
@@ -573,8 +581,9 @@ class RegexWitness(Family):
 		glue = ' ' if features['wordb'] else rng.choice(['', ' '])
 		mode = rng.randrange(3)
 		if 0 == mode or '//' in line:
-			# any position of the line
-			position = rng.randrange(len(line) + 1)
+			# any position of the line that does not split a comment marker
+			positions = [index for index in range(len(line) + 1) if '/' not in line[max(0, index - 1):index + 1] and '*' not in line[max(0, index - 1):index + 1]]
+			position = rng.choice(positions or [len(line)])
 			new_line = line[:position] + glue + witness + glue + line[position:]
 		else:
 			new_line = line + ' // ' + witness + glue
@@ -615,6 +624,9 @@ class NamespaceRename(Family):
 		parts = relpath.split('/')
 		if 'src' != parts[0] or len(parts) != 4 or 'catapult' != parts[1]:
 			return []
+		import exclusions  # pylint: disable=import-error,import-outside-toplevel
+		if any(pattern.match(relpath) for pattern in exclusions.NAMESPACES_FALSEPOSITIVES):
+			return []  # exempted from the namespace check by name
 		opening = f'namespace catapult {{ namespace {parts[2]} {{'
 		sites = [index for index, line in enumerate(lines) if line == opening]
 		return sites if 1 == len(sites) else []
@@ -693,7 +705,8 @@ def build_catalogue(entries, constants):
 		TextEdit('formatting:enum-not-scoped', r'\benum class ', 'enum ', 'multiConditionChecker', 'use enum class instead of enum'),
 		TextEdit(
 			'formatting:macro-semicolon', r'^(\t+)(DEFINE_[A-Z_]+_TESTS?|MAKE_[A-Z_]+_TESTS?)\(([^()]*)\)$', r'\1\2(\3);', 'macroSemicolonChecker', None,
-			lambda line, _: 'NOTIFICATION' not in line and 'RECEIPT' not in line and 'RESULT' not in line and '_TYPE' not in line),
+			lambda line, _: not any(word in line for word in (
+				'NOTIFICATION', 'RECEIPT', 'RESULT', '_TYPE', 'EXPECT_', 'ASSERT_', 'CATAPULT_', 'WAIT_FOR', 'PROPERTY', 'DECLARE_MONGO', 'DEFINE_MOCK'))),
 	]
 	for entry in entries:
 		if 'TypoChecker' == entry['owner']:
@@ -831,7 +844,11 @@ def _judge(result, reports, expectation):
 		if found:
 			result['failures'].append(('property', f'conforming boundary edit is reported: {expectation["group"]} at line {expectation["lineno"]}'))
 	elif not found:
-		if any('parser-abort' == report[0] for report in reports) and expectation['group'] in ('namespace', 'template', 'dependency', 'cross_includes', 'includesOrder', 'firstInclude'):
+		broken = [report[0] for report in reports if report[0] in ('parser-abort', 'crash')]
+		if 'crash' in broken and 'unknown token' in ' '.join(report[2] for report in reports if 'crash' == report[0]):
+			# the seeded text is no longer lexable for the forward-declaration tokenizer: its RuntimeError ends the validator loop
+			result['discarded'] = 'tokenizer-crash'
+		elif 'parser-abort' in broken and expectation['group'] in ('namespace', 'template', 'dependency', 'cross_includes', 'includesOrder', 'firstInclude'):
 			result['discarded'] = 'parser-abort'
 		else:
 			where = '' if expectation.get('lineno') is None else f' at line {expectation["lineno"]}'
@@ -844,10 +861,16 @@ def _judge(result, reports, expectation):
 
 def run_chunk(cases):
 	"""Seeded edits, chained: every seeded file is linted as the first file of a fresh Analyzer ("alone") and, with the Analyzer of
-	the previous case, directly after that case's (different) dirty file; the edit is undone and, for a sample, the original relinted."""
+	the previous case, directly after that case's (different) dirty file; the edit is undone and, for a sample, the original relinted.
+	Before each case the worker notes it in <root>/current-case.json (the parent's watchdog reads it: a regular expression of the
+	linter that backtracks exponentially cannot be interrupted from inside the process)."""
 	results = []
 	previous = None  # (analyzer that has linted exactly the previous seeded file, its case)
+	note_path = os.path.join(_W['root'], 'current-case.json')
 	for case in cases:
+		with open(note_path + '.tmp', 'wt', encoding='utf8') as outfile:
+			json.dump({'case': case, 'since': time.time()}, outfile)
+		os.replace(note_path + '.tmp', note_path)
 		relpath = case['relpath']
 		seeded, expectation, original = _seed(case)
 		result = {'case': case, 'expectation': expectation, 'failures': []}
@@ -882,6 +905,8 @@ def run_chunk(cases):
 		results.append(result)
 	if previous is not None:
 		_write(previous[1]['relpath'], _original(previous[1]['relpath']))
+	if os.path.exists(note_path):
+		os.remove(note_path)
 	return results
 
 
@@ -992,26 +1017,33 @@ def check_regex_correspondence(ctx, entries, lines, label):
 
 
 STALL_TIMEOUT_S = 150
+OVERALL_STALL_S = 900
 
 
-def report_stalled(ctx):
-	"""No chunk finished for a long time: a worker is stuck inside the linter (typically a regular expression that backtracks
-	exponentially; that cannot be interrupted from Python). The case each worker noted before starting is the failing input."""
+def report_stalled(ctx, final):
+	"""No chunk finished for a while. A worker stuck inside the linter (typically a regular expression that backtracks
+	exponentially, which cannot be interrupted from Python) shows as a case that has been running for a long time: the case each
+	worker noted before starting is then the failing input. Returns True when the run has to stop."""
 	now = time.time()
 	found = False
 	for name in sorted(os.listdir(_POOL_ROOT)):
 		path = os.path.join(_POOL_ROOT, name, 'current-case.json')
 		if name.startswith('seeded-') and os.path.exists(path):
-			with open(path, 'rt', encoding='utf8') as infile:
-				note = json.load(infile)
-			if now - note['since'] > STALL_TIMEOUT_S * 0.8:
+			try:
+				with open(path, 'rt', encoding='utf8') as infile:
+					note = json.load(infile)
+			except ValueError:
+				continue
+			if now - note['since'] > STALL_TIMEOUT_S:
 				found = True
 				case = note['case']
 				ctx.fail(
 					'property', f'{case["name"]} in {case["relpath"]} line {case["site"] + 1}: the linter does not finish on the seeded file '
 					f'(no answer for {int(now - note["since"])} s)', {'kind': 'seeded', 'case': case, 'dirty': None, 'stalled': True})
-	if not found:
-		ctx.fail('corr', 'the seeded-edit workers stalled but no stuck case was identified', {'kind': 'stall'})
+	if not found and final:
+		ctx.fail('corr', f'the seeded-edit workers made no progress for {OVERALL_STALL_S} s and no stuck case was identified', {'kind': 'stall'})
+		return True
+	return found
 
 
 def _pool_init():
@@ -1107,15 +1139,26 @@ def run(ctx):
 			chunks = [cases[start:start + 12] for start in range(0, len(cases), 12)]
 			model_requests = []
 			iterator = pool.imap_unordered(run_chunk, chunks)
-			for _ in chunks:
+			remaining = len(chunks)
+			last_progress = time.time()
+			last_look = time.time()
+			while remaining:
+				results = None
 				try:
-					results = iterator.next(timeout=STALL_TIMEOUT_S)
+					results = iterator.next(timeout=20)
 				except multiprocessing.TimeoutError:
-					report_stalled(ctx)
-					pool.terminate()
-					break
-				for result in results:
-					report_result(ctx, result, catalogue, entries, model_requests)
+					pass
+				if results is not None:
+					remaining -= 1
+					last_progress = time.time()
+					for result in results:
+						report_result(ctx, result, catalogue, entries, model_requests)
+				if time.time() - last_look > 20:
+					last_look = time.time()
+					# a worker stuck inside the linter shows as a case that has been running for long, whatever the others do
+					if report_stalled(ctx, final=time.time() - last_progress >= OVERALL_STALL_S):
+						pool.terminate()
+						break
 
 		# Lean regex engine against `re`
 		lines = []
@@ -1211,8 +1254,9 @@ MANIFEST = {
 		'group/back-reference (m_iff_matches, search_iff_lang); a witness inserted at ANY position of ANY line fires an anchor-free rule '
 		'(search_context) and every table entry has a kernel-checked witness (typo_witnesses, validator_witnesses, re-generated from '
 		'validation.py on every run); seeded-edit theorems for the modelled line rules (trailing whitespace, spaces at start, tabs in empty '
-		'line, tab inside, line length with tabs as 4 incl. the boundary, consecutive blank lines, typo insertion) with undo theorems; '
-		'exit_is_count. Executed on the real code: the CI command over the whole tree (42 suites silent, exit 0) and ~2000 (quick) seeded '
+		'line, tab inside, line length with tabs as 4 incl. the boundary, consecutive / near-end blank lines, mistyped region comment, typo '
+		'insertion) with undo theorems; exit_is_count and shell_status_wraps; pragma_empty_line_rule_is_dead (a rule of the pinned code that '
+		'can never fire - open finding). Executed on the real code: the CI command over the whole tree (42 suites silent, exit 0) and ~2000 (quick) seeded '
 		'edits of every catalogue family incl. the unmodelled ones, each linted alone, after a dirty file, and undone.'),
 	'level_note': (
 		'Not modelled: Parser.NamespacesParser and forwardsValidation (PLY-tokenised C++), MultiConditionChecker, SingleLineValidator, '
